@@ -41,6 +41,7 @@ func cmdReplay(args []string) error {
 	shard := fl.Int("shard", 0, "shard index")
 	nshard := fl.Int("nshard", 1, "number of shards")
 	names := fl.String("names", "a,b", "universe of names probed by the projection")
+	workers := fl.Int("workers", 1, "goroutines replaying in parallel (in-memory targets only)")
 	_ = fl.Parse(args)
 
 	in, err := os.Open(*edges)
@@ -63,7 +64,11 @@ func cmdReplay(args []string) error {
 
 	drv.InstallSelfDeadlockHook()
 
-	st, err := drv.ReplayEdges(f, in, of, *shard, *nshard, strings.Split(*names, ","))
+	if *target == "osfs" {
+		*workers = 1 // the kernel target changes process-wide state (chroot, cwd, umask)
+	}
+
+	st, err := drv.ReplayEdges(f, in, of, *shard, *nshard, strings.Split(*names, ","), *workers)
 	if err != nil {
 		return err
 	}
